@@ -110,7 +110,7 @@ pub fn compare_table(hist: &History, got: &[(u64, u8)], h: &ZobristHasher) -> Op
 }
 
 /// Materially lost positions with the losing side to move and room to shuffle.
-fn lost_positions(rng: &mut Rng, starts: &[Pos]) -> Vec<Pos> {
+pub fn lost_positions(rng: &mut Rng, starts: &[Pos]) -> Vec<Pos> {
     let mut v: Vec<Pos> = Vec::new();
     for fen in [
         "4k3/8/8/8/8/8/3Q4/4K3 b - -",
@@ -230,48 +230,10 @@ pub fn run(tier: Tier, seed: u64) -> i32 {
                 return acc;
             }
         };
-        // the target: cyc[0] leads to a position that occurred n times
         let pieces = base.sq.iter().filter(|x| x.is_some()).count();
         let depth = if pieces <= 6 { 5 } else if pieces <= 14 { 4 } else { 3 };
-        let r = run_search(&root.board, &root.table, None, depth);
-        acc.evaluations += 1;
-        let case = root_case("C10", &root, depth, None);
-        if let Some(pn) = &r.panic {
-            acc.violation(format!("C10|panic-search|{}|{}", base.to_fen(), n), format!("search panicked: {}", pn), case);
-            return acc;
-        }
-        acc.distinct.insert(hash64(&format!("{}|{}", root.hist.command(), depth)));
         acc.feature(&format!("target_occurred_{}x", n));
-        let mut cur = 0u8;
-        let mut last: HashMap<u8, (i64, String)> = HashMap::new();
-        for e in &r.report.events {
-            match e {
-                Ev::IterStart(d) => cur = *d,
-                Ev::Line(l) => {
-                    if let Ok(info) = parse_info(l, true) {
-                        last.insert(cur, (score_key(&info.score), l.clone()));
-                    }
-                }
-                _ => {}
-            }
-        }
-        let mut scores: Vec<(u8, i64)> = last.iter().map(|(d, (s, _))| (*d, *s)).collect();
-        scores.sort();
-        if j < 3 {
-            acc.sample(json!({"lost_base": base.to_fen(), "cycles": n, "drawing_move": cyc[0].to_string(), "final_score_per_depth": scores}));
-        }
-        for (d, (s, l)) in &last {
-            if *s < 0 {
-                acc.violation(
-                    format!("C10|missed-draw|{}|n{}|d{}", base.to_fen(), n, d),
-                    format!("{} after {} shuffle cycles: {} leads to a position that already occurred {} times, yet completed depth {} ends with a negative score: {:?}", base.to_fen(), n, cyc[0], n, d, l),
-                    case.clone(),
-                );
-            }
-        }
-        if r.table_after != root.table_entries {
-            acc.violation(format!("C10|table|{}|n{}", base.to_fen(), n), format!("repetition record changed by the search on {} ({} cycles)", base.to_fen(), n), case);
-        }
+        c10_check_root(&root, depth, j < 3, &mut acc);
         acc
     });
     for a in results {
@@ -280,4 +242,53 @@ pub fn run(tier: Tier, seed: u64) -> i32 {
     super::timed::c10_blackbox(&mut run, &lost);
     run.floor_distinct = 100;
     run.finish()
+}
+
+/// Part b for one root: if the side to move has a move into a position that already occurred at
+/// least twice in the game, every completed depth must end with a score >= 0.
+pub fn c10_check_root(root: &Root, depth: u8, sample: bool, acc: &mut Acc) {
+    let counts = root.hist.counts();
+    let targets: Vec<(Mv, u32)> = root.legal.iter().filter_map(|m| counts.get(&apply(&root.hist.end, *m).to_fen()).map(|c| (*m, *c))).filter(|(_, c)| *c >= 2).collect();
+    if targets.is_empty() {
+        return;
+    }
+    let r = run_search(&root.board, &root.table, None, depth);
+    acc.evaluations += 1;
+    let case = root_case("C10", root, depth, None);
+    let fen = root.hist.end.to_fen();
+    if let Some(pn) = &r.panic {
+        acc.violation(format!("C10|panic-search|{}", root.hist.command()), format!("search panicked: {}", pn), case);
+        return;
+    }
+    acc.distinct.insert(hash64(&format!("{}|{}", root.hist.command(), depth)));
+    let mut cur = 0u8;
+    let mut last: HashMap<u8, (i64, String)> = HashMap::new();
+    for e in &r.report.events {
+        match e {
+            Ev::IterStart(d) => cur = *d,
+            Ev::Line(l) => {
+                if let Ok(info) = parse_info(l, true) {
+                    last.insert(cur, (score_key(&info.score), l.clone()));
+                }
+            }
+            _ => {}
+        }
+    }
+    let mut scores: Vec<(u8, i64)> = last.iter().map(|(d, (s, _))| (*d, *s)).collect();
+    scores.sort();
+    if sample {
+        acc.sample(json!({"root": fen, "history_plies": root.hist.moves.len(), "moves_into_repetitions": targets.iter().map(|(m, c)| format!("{} ({}x)", m, c)).collect::<Vec<_>>(), "final_score_per_depth": scores}));
+    }
+    for (d, (s, l)) in &last {
+        if *s < 0 {
+            acc.violation(
+                format!("C10|missed-draw|{}|d{}", root.hist.command(), d),
+                format!("{} (history of {} plies): {} leads to a position that already occurred {} times, yet completed depth {} ends with a negative score: {:?}", fen, root.hist.moves.len(), targets[0].0, targets[0].1, d, l),
+                case.clone(),
+            );
+        }
+    }
+    if r.table_after != root.table_entries {
+        acc.violation(format!("C10|table|{}", root.hist.command()), format!("repetition record changed by the search on {}", fen), case);
+    }
 }
